@@ -174,7 +174,7 @@ pub fn run(tier: Tier, rep: &mut Report) -> (String, String) {
     // every byte class boundary: each ASCII char (and a few non-ASCII ones) in every position of short digit templates
     let mut probes: Vec<char> = (0u8..128).map(|b| b as char).collect();
     probes.extend(['\u{80}', 'ñ', '٠', '٩', '０', '９', '\u{ff10}', '\u{1d7ce}', '\u{10ffff}']);
-    for &c in &probes {
+    for &c in if tier == Tier::Miri { &probes[..0] } else { &probes[..] } {
         for t in ["#", "-#", "#1", "1#", "-#1", "-1#", "1#1", "12#", "#-1", "+#"] {
             small.push(t.replace('#', &c.to_string()));
         }
@@ -213,7 +213,9 @@ pub fn run(tier: Tier, rep: &mut Report) -> (String, String) {
         let nb = neighbourhood(signed, bits);
         f(r, &nb, suffixes);
         // the unconsumed rest starts with the first and the last char of every UTF-8 lead-byte class
-        f(r, &edge_inputs, &edge_refs);
+        if tier != Tier::Miri {
+            f(r, &edge_inputs, &edge_refs);
+        }
         r.sample(|| format!("{name}: {} small strings x {} suffixes, {} values, {} MIN/MAX neighbourhood strings", small.len(), suffixes.len(), vals16.len(), nb.len()));
     }));
     // bool
@@ -241,7 +243,9 @@ pub fn run(tier: Tier, rep: &mut Report) -> (String, String) {
     words.sort();
     words.dedup();
     t_bool(rep, &words, suffixes);
-    t_bool(rep, &["true".to_string(), "false".to_string(), "tru".to_string()], &edge_refs);
+    if tier != Tier::Miri {
+        t_bool(rep, &["true".to_string(), "false".to_string(), "tru".to_string()], &edge_refs);
+    }
     rep.traces = rep.transitions;
     (
         "state = one input string (x suffix for prefix parsing); transition = primitive::parse_T (whole string), Parser::parse_T and parse_with!(parser, T) (prefix); oracle: whole string = str::parse::<T> unless the string starts with '+'; prefix = optional '-' (signed only) + longest ASCII-digit run, value by checked 128-bit accumulation, failure (an Err and no parser) if no digit or out of range, otherwise the unconsumed rest by address (offset bookkeeping belongs to C13); non-trivial = a string containing a digit that must be rejected".into(),
